@@ -30,6 +30,18 @@ pub fn decode(tape: &[u32]) -> (StateCase, Value) {
             c.spec.overlay.push((c.spec.pc, crate::model::isa::enc(&MInstr::Jsrr { base: 1 })));
             c.spec.sr_defs.retain(|(a, _)| *a != callee);
             c.spec.sr_defs.push((callee, Sig::Stack(1 + t.pick(3))));
+            if callee == 0x4000 || callee == 0x3100 {
+                // inside the callee: a jump through a register other than R7 is not a return (the frame stays)
+                let k = *t.choose(&[2usize, 6, 0, 3, 4, 5]);
+                c.spec.regs[k] = 0x5000;
+                c.spec.overlay.push((callee, 0xC000 | ((k as u16) << 6)));
+                c.spec.overlay.push((0x5000, 0x0000));
+                c.spec.overlay.push((0x5001, 0x0000));
+                if c.steps < 4 {
+                    c.steps = 4;
+                    c.plan.resize(4, None);
+                }
+            }
             if let Some(p0) = c.plan.first_mut() {
                 *p0 = None;
             }
@@ -79,12 +91,16 @@ pub fn check(tape: &[u32], st: &mut Stats) -> Result<(), String> {
     let mut underflow = false;
     let mut prev_depth = 0u64;
     let mut with_args = false;
+    let mut nonret_jump = false;
     let mut args_at_top = false;
     let mut kinds = (false, false, false);
     lockstep(&c, &mut Stats::default(), &mut |_rig, r, _| {
         max_depth = max_depth.max(r.depth);
         if prev_depth == 0 && matches!(r.info.instr, Some(MInstr::Jmp { base: 7 }) | Some(MInstr::Rti)) && r.info.exception_entry.is_none() && r.info.fault_phase.is_none() {
             underflow = true;
+        }
+        if prev_depth >= 1 && matches!(r.info.instr, Some(MInstr::Jmp { base }) if base != 7) && r.info.fault_phase.is_none() {
+            nonret_jump = true;
         }
         if let Some(f) = r.frames.last() {
             if !f.args.is_empty() {
@@ -118,6 +134,9 @@ pub fn check(tape: &[u32], st: &mut Stats) -> Result<(), String> {
     }
     if underflow {
         st.class("return-at-depth-0");
+    }
+    if nonret_jump {
+        st.class("jump-not-through-R7-inside-a-frame");
     }
     if with_args {
         st.class("frame-with-arguments");
@@ -157,7 +176,7 @@ pub fn run(ctx: &Ctx) -> Outcome {
     let cfg = TapeCfg::new(ctx, 1500, 60_000, 600);
     out.shards = cfg.shards;
     out.absorb(tape_search(ctx, "main", &cfg, check, describe));
-    out.essential = ["debug-frames-on", "debug-frames-off", "depth>=2", "depth>=3", "depth>=130", "return-at-depth-0", "frame-with-arguments", "argument-block-reaches-top-of-memory", "subroutine-frame", "trap-frame", "interrupt-frame"].iter().map(|s| s.to_string()).collect();
+    out.essential = ["debug-frames-on", "debug-frames-off", "depth>=2", "depth>=3", "depth>=130", "return-at-depth-0", "frame-with-arguments", "jump-not-through-R7-inside-a-frame", "argument-block-reaches-top-of-memory", "subroutine-frame", "trap-frame", "interrupt-frame"].iter().map(|s| s.to_string()).collect();
     out
 }
 
